@@ -393,8 +393,21 @@ func (v *AudioSamplingRate) From(a aac.SampleRateIndex) {
 
 // Parse the Opus sampling rate to Hz.
 func (v AudioSamplingRate) OpusToHz() int {
-	opusSR := []int{8000, 12000, 16000, 24000, 48000}
-	return opusSR[v]
+	// The Opus sampling rate is the rate in kHz, not an index.
+	switch v {
+	case AudioSamplingRateNB8kHz:
+		return 8000
+	case AudioSamplingRateMB12kHz:
+		return 12000
+	case AudioSamplingRateWB16kHz:
+		return 16000
+	case AudioSamplingRateSWB24kHz:
+		return 24000
+	case AudioSamplingRateFB48kHz:
+		return 48000
+	default:
+		return 0
+	}
 }
 
 // For Opus, convert aac sample rate index to FLV sampling rate.
